@@ -86,8 +86,6 @@ theorem run_sub (v : Variant) (hd : v.dropPending = true) (as : List Act) :
     intro s S A hp hnd
     obtain ⟨hp', hres⟩ := step_sub v hd s a S hp
     have hsub : (frameOf (step v s a).1 (step v s a).2 a).submit = submitOf a := rfl
-    have hS' : (match (frameOf (step v s a).1 (step v s a).2 a).submit with
-        | some z => z :: S | none => S) = nextSubs S a := by rw [hsub]; rfl
     have hnd' : (((nextSubs S a).reverse ++ as.filterMap submitOf).map fidOf).Nodup := by
       unfold nextSubs
       cases hso : submitOf a with
@@ -97,27 +95,37 @@ theorem run_sub (v : Variant) (hd : v.dropPending = true) (as : List Act) :
       have h1 : (((nextSubs S a).reverse).map fidOf).Nodup := by
         rw [List.map_append] at hnd'
         exact (List.nodup_append.mp hnd').1
-      rw [List.map_reverse] at h1
-      exact List.nodup_reverse.mp h1
+      exact (((List.reverse_perm (nextSubs S a)).map fidOf).nodup_iff).mp h1
     simp only [framesFrom, submitGo, Bool.and_eq_true, List.all_eq_true]
-    rw [hS']
-    constructor
-    · intro q hq
-      obtain ⟨cid, hc1, hc2⟩ := hres q hq
-      cases hfind : (nextSubs S a).find? (fun z => z.1 == q.1 && z.2.1 == q.2.1) with
-      | none =>
-        exfalso
-        have := List.find?_eq_none.mp hfind _ hc1
-        simp at this
-      | some z =>
-        have hzm := List.mem_of_find?_eq_some hfind
-        have hzp := List.find?_some hfind
-        simp only [Bool.and_eq_true, beq_iff_eq] at hzp
-        have : z = (q.1, q.2.1, cid) := nodup_map_inj fidOf _ huniq z hzm _ hc1 (by simp [fidOf, hzp.2])
-        simp only [this]
-        apply List.contains_iff_mem.mpr
-        exact List.mem_append_left _ hc2
-    · exact ih _ _ _ hp' hnd'
+    have hgoal : ∀ S', S' = nextSubs S a →
+        (∀ q ∈ (frameOf (step v s a).1 (step v s a).2 a).ress,
+          (match S'.find? (fun z => z.1 == q.1 && z.2.1 == q.2.1) with
+            | some z => ((frameOf (step v s a).1 (step v s a).2 a).apps ++ A).contains (q.1, q.2.2, z.2.2)
+            | none => false) = true) ∧
+        submitGo S' ((frameOf (step v s a).1 (step v s a).2 a).apps ++ A) (framesFrom v (step v s a).1 as) = true := by
+      intro S' hSe
+      rw [hSe]
+      constructor
+      · intro q hq
+        obtain ⟨cid, hc1, hc2⟩ := hres q hq
+        cases hfind : (nextSubs S a).find? (fun z => z.1 == q.1 && z.2.1 == q.2.1) with
+        | none =>
+          exfalso
+          have := List.find?_eq_none.mp hfind _ hc1
+          simp at this
+        | some z =>
+          have hzm := List.mem_of_find?_eq_some hfind
+          have hzp := List.find?_some hfind
+          simp only [Bool.and_eq_true, beq_iff_eq] at hzp
+          have : z = (q.1, q.2.1, cid) := nodup_map_inj fidOf _ huniq z hzm _ hc1 (by simp [fidOf, hzp.2])
+          simp only [this]
+          apply List.contains_iff_mem.mpr
+          exact List.mem_append_left _ hc2
+      · exact ih _ _ _ hp' hnd'
+    apply hgoal
+    rw [hsub]
+    unfold nextSubs
+    cases submitOf a <;> rfl
 
 /-- SUBMIT RESOLVES OWN COMMAND.  Repaired truncation rule (D4), every cluster size, every action
     list whose submits carry pairwise distinct futures: whenever a future resolves with index `k`, the
